@@ -430,8 +430,20 @@ Definition extend_location (l : loc) (distance : Z) (maximum : Z) (circular : bo
       do parts <-
         (if maximum <? ne then
            do lower <- mkFL 0 (ne mod maximum) st;
-           let '(rest, lower', merged) := absorb_lower parts lower false in
-           Ok (if merged then rest ++ [lower'] else parts)
+           (* first = 1 if merged and len(parts) > 1 else 0: the part starting at the origin
+              follows the merged upper part; the loop pops parts[first], the merged lower part
+              is inserted at index first (repair of finding F09b extend_lower_lost) *)
+           let first := merged && (1 <? Z.of_nat (length parts)) in
+           let '(rest, lower', merged2) :=
+             absorb_lower (if first then tl parts else parts) lower false in
+           if negb merged2 then Ok parts else
+           match (if first then parts else []) with
+           | up :: _ =>
+             (* the lower extension has reached the upper one: everything is covered *)
+             if ps up <=? pe lower' then do w <- mkFL 0 maximum st; Ok [w]
+             else Ok (up :: lower' :: rest)
+           | [] => Ok (lower' :: rest)
+           end
          else Ok parts);
       match parts with
       | [p] => if part_eqb p (mkPart 0 maximum st) then Ok [p] else Err E_Assert
